@@ -130,6 +130,8 @@ ITEMS = [
     ("mov14", "mov.w #2, r14"),
     ("loop", "add.w r15, r13\n  dec.w r14\n  jnz %(prev)s"),
     ("call", "call #func"),
+    ("callr", "mov.w #func, r9\n  call r9"),
+    ("callm", "mov.w #func, &0x0210\n  call &0x0210\n  mov.w #0x0210, r9\n  call @r9"),
     ("push", "push.w r15"),
     ("pop", "pop.w r12"),
     ("io_b", "mov.b r15, &0x%04x" % IO),
